@@ -82,8 +82,18 @@ var perWhat = map[string]int{}
 
 func hist(k string) { out.Hist[k]++ }
 
+// curStream names the input stream of the comparison in progress (evidence: which generator finds what)
+var curStream = "-"
+
 func fail(lv *levelCtx, what, sig string, md protoreflect.MessageDescriptor, b []byte, detail string) {
 	hist("FAIL:" + what)
+	if sig != "" {
+		pinned := ""
+		if md != nil && strings.Contains(string(md.FullName()), ".Pin") {
+			pinned = ":pinned-schema"
+		}
+		hist("found:" + sig + ":by-" + curStream + pinned)
+	}
 	k := what + "|" + sig + "|" + lv.Level.Level
 	if perWhat[k] >= 3 {
 		return
@@ -498,6 +508,8 @@ func compareBytes(lv *levelCtx, md protoreflect.MessageDescriptor, b []byte, str
 	}()
 	out.Evals++
 	hist("stream:" + stream)
+	curStream = stream
+	defer func() { curStream = "-" }()
 	dt := dynamicpb.NewMessageType(md)
 	dres := proto.UnmarshalOptions{Resolver: lv.dtypes}
 	// strict verdicts (no AllowPartial)
